@@ -240,8 +240,10 @@ def pcDelta_grouped(df, by, seq_columns, **kwargs):
     def pcDelta_within_group(dfg):
         index = kwargs.get("bins")
         if isinstance(index, int):
-            index = [index]
-        if not index is None:
+            # scalar forms: bins=0 gives one coincidence probability per group
+            # (labelled Delta=0), an integer number of bins has no edge labels
+            index = [0] if index == 0 else None
+        elif not index is None:
             index = index[:-1]
         return pd.Series(pcDelta(dfg[seq_columns], **kwargs), name="Delta", index=index)
 
